@@ -22,6 +22,22 @@ def matches_set(node, enum_path):
     return out
 
 
+
+def kind_gate_rule(fb, ctx, short, b):
+    """A serialized check carries an explicit kind from Datalog 3.1 on (declared version >= DATALOG_3_1 = MIN_SCHEMA_VERSION + 1): the
+    loader refuses a kind exactly when the declared version is the minimum one. A wider test refuses valid blocks (`check all` in a
+    3.1 block), a narrower one admits kinds where old verifiers ignore them."""
+    h = fb.hir_of(b)
+    gates = [n for n in find_all(h["body"], lambda n: n.get("k") == "if") if hirq.err_variant(n["then"]) and find_all(n["cond"], lambda z: z.get("k") == "field" and z.get("name") == "kind") and find_all(n["cond"], lambda z: z.get("k") == "mcall" and z.get("name") == "is_some")]
+    ok, found = False, None
+    if len(gates) == 1:      # (a per-check gate inside the loop over the checks is fine: no check, no kind)
+        for c in find_all(gates[0]["cond"], lambda z: z.get("k") == "binary" and z.get("op") in ("Eq", "Lt", "Le", "Ne", "Gt", "Ge")):
+            consts = [(z["res"].get("path") or "").split("::")[-1] for z in find_all(c, lambda z: z.get("k") == "path" and re.search(r"(MIN_SCHEMA_VERSION|DATALOG_3_\d)$", z.get("res", {}).get("path") or ""))]
+            if consts:
+                found = (c["op"], consts[0])
+                ok = found in (("Eq", "MIN_SCHEMA_VERSION"), ("Le", "MIN_SCHEMA_VERSION"), ("Lt", "DATALOG_3_1"))
+    ctx.check(ok, "GATE", f"{short}: a check kind is refused exactly below Datalog 3.1", f"GATE|{short}|check-kind", f"expected one `if version == MIN_SCHEMA_VERSION && checks.any(|c| c.kind.is_some()) {{ Err }}`; found {len(gates)} gate(s) with version test {found}", f"{b['file']}:{gates[0]['ln'] if gates else b['line']}")
+
 def check(fb, ctx):
     ctx.explanation = (
         "DETECT: the feature detector used by the builders and by the loader (contains_v3_3_term/_op/_predicate, "
@@ -241,10 +257,11 @@ def check(fb, ctx):
         # range test
         h = fb.hir_of(b)
         rng = [n for n in find_all(h["body"], lambda n: n.get("k") == "if") if hirq.err_variant(n["then"]) and find_all(n["cond"], lambda z: z.get("k") == "path" and (z["res"].get("path") or "").endswith("MIN_SCHEMA_VERSION")) and find_all(n["cond"], lambda z: z.get("k") == "path" and (z["res"].get("path") or "").endswith("MAX_SCHEMA_VERSION"))]
-        ctx.check(len(rng) == 1, "GATE", f"{short}: declared version outside MIN..=MAX is refused", f"GATE|{short}|range", "range test on the declared version not found", f"{b['file']}:{b['line']}")
+        ctx.check(len(rng) == 1 and not hirq.inside_loop(h, rng[0]), "GATE", f"{short}: declared version outside MIN..=MAX is refused", f"GATE|{short}|range", "range test on the declared version not found", f"{b['file']}:{b['line']}")
+        kind_gate_rule(fb, ctx, short, b)
         tp = [n for n in find_all(h["body"], lambda n: n.get("k") == "if") if hirq.err_variant(n["then"]) and find_all(n["cond"], lambda z: z.get("k") == "path" and (z["res"].get("path") or "").endswith("DATALOG_3_2")) and (mcalls(n["cond"], r"Option::<T>::is_some$"))]
         if short == "proto_block_to_token_block":  # snapshot blocks were already admitted by this gate when the token was loaded
-            ctx.check(len(tp) == 1, "THIRDPARTY", f"{short}: a block with an external key below 3.2 is refused", f"THIRDPARTY|{short}", "`if version < DATALOG_3_2 && external_key.is_some() { Err }` not found", f"{b['file']}:{b['line']}")
+            ctx.check(len(tp) == 1 and not hirq.inside_loop(h, tp[0]), "THIRDPARTY", f"{short}: a block with an external key below 3.2 is refused", f"THIRDPARTY|{short}", "`if version < DATALOG_3_2 && external_key.is_some() { Err }` not found as an unconditional statement of the loader (inside a loop over the block's content it is skipped when that content is empty)", f"{b['file']}:{b['line']}")
     cb2 = fb.body("biscuit_auth::token::third_party::ThirdPartyRequest::create_block")
     mx = [c for c in fb.calls(cb2) if not c.indirect and (c.rpath or "").endswith("cmp::max")]
     okm = len(mx) == 1 and any(a.get("k") == "const" and a.get("int") == 5 for a in mx[0].args)
